@@ -866,6 +866,11 @@ fn meaning_cases() -> Vec<(&'static str, &'static str, &'static str)> {
         ("(mod (X Y) (defun-inline F ((@ W (A . R)) K) (let* ((q (+ A K)) (s (* q 2))) (list q s W R))) (F (list X Y) 5))", "(1 2)", "(6 12 (1 2) (2))"),
         ("(mod (X Y) (defun-inline F (A (B C)) (let ((q (+ A 1))) (list q B C))) (F X (list Y 9)))", "(1 2)", "(2 2 9)"),
         ("(mod (X Y) (defun F (A (@ Z (B C))) (let ((q (+ A 1))) (list q Z B C))) (F X (list Y 9)))", "(1 2)", "(2 (2 9) 2 9)"),
+        // binders inside a &rest tail that re-use a visible name
+        ("(mod (A B) (defun sum (X Y) (+ X Y)) (defun G (X) (sum X &rest (let ((X (* X 10))) (list X)))) (G A))", "(3 4)", "33"),
+        ("(mod (A B) (defun sum (X Y) (+ X Y)) (defun G (X) (sum X &rest (let ((Q (* X 10))) (let ((Q (+ Q 1))) (list Q))))) (G A))", "(3 4)", "34"),
+        ("(mod (A B) (defun sum (X Y) (+ X Y)) (sum A &rest (let ((A (* B 10))) (list A))))", "(3 4)", "43"),
+        ("(mod (A B) (defun app (F X) (a F (list X))) (defun G (X) (app &rest (list (lambda ((& X) X2) (+ X X2)) (let ((X (* X 2))) X)))) (G A))", "(3 4)", "9"),
     ]
 }
 
@@ -1136,6 +1141,31 @@ fn chk_tables() -> Option<Value> {
         for (name, atom) in to.iter() { if from.get(atom) != Some(name) { return Some(hit(json!({"version": v, "name": name, "opcode": atom}), "opcode maps back to the name".into(), format!("{:?}", from.get(atom)), "keyword_to_atom / keyword_from_atom")); } }
         if v > 0 { for (atom, name) in keyword_from_atom(v - 1).iter() { if from.get(atom) != Some(name) { return Some(hit(json!({"version": v, "opcode": atom, "name": name}), "later version keeps the entry".into(), format!("{:?}", from.get(atom)), "version monotonicity")); } } }
     }
+    // every operator of a version's table is implemented by the evaluator the tools select for that version (exhaustive over the tables):
+    // a one-operator program may fail on its (missing) arguments, but never as an unimplemented operator
+    {
+        use chialisp::classic::clvm_tools::stages::stage_0::{DefaultProgramRunner, RunProgramOption, TRunProgram};
+        for v in 0..=2usize { for (atom, name) in keyword_from_atom(v).iter() {
+            if name == "q" || name == "a" { continue; }
+            let mut a = clvmr::Allocator::new();
+            let op = match a.new_atom(atom) { Ok(o) => o, Err(_) => continue };
+            let nil = a.nil();
+            let prog = match a.new_pair(op, nil) { Ok(p) => p, Err(_) => continue };
+            let r = DefaultProgramRunner::new().run_program(&mut a, prog, nil, Some(RunProgramOption { operators_version: v, ..Default::default() }));
+            if let Err(e) = r { let m = format!("{:?} / {}", e, e); if m.contains("nimplemented") { return Some(hit(json!({"version": v, "name": name, "opcode": atom}), "the evaluator selected for this operator version implements the operator".into(), m, "DefaultProgramRunner::run_program on (op) with operators_version = v")); } }
+        } }
+        for (name, val) in chialisp::compiler::prims::prims() {
+            let n = String::from_utf8_lossy(&name).to_string();
+            if n == "q" || n == "a" { continue; }
+            let code = match &val { chialisp::compiler::sexp::SExp::Integer(_, i) => i.to_signed_bytes_be(), _ => continue };
+            let mut a = clvmr::Allocator::new();
+            let op = match a.new_atom(&code) { Ok(o) => o, Err(_) => continue };
+            let nil = a.nil();
+            let prog = match a.new_pair(op, nil) { Ok(p) => p, Err(_) => continue };
+            let r = DefaultProgramRunner::new().run_program(&mut a, prog, nil, None);
+            if let Err(e) = r { let m = format!("{:?} / {}", e, e); if m.contains("nimplemented") { return Some(hit(json!({"operator": n, "opcode": code}), "the default evaluator (used by the stepping evaluator, cldb, the repl and compile-time evaluation) implements every modern primitive".into(), m, "DefaultProgramRunner::run_program on (op) with the default options")); } }
+        }
+    }
     let to2 = keyword_to_atom(2);
     for (name, val) in chialisp::compiler::prims::prims() {
         let n = String::from_utf8_lossy(&name).to_string();
@@ -1143,6 +1173,37 @@ fn chk_tables() -> Option<Value> {
         if to2.get(&n) != Some(&code) { return Some(hit(json!({"operator": n}), format!("classic opcode {:?}", to2.get(&n)), format!("modern compiler opcode {:?}", code), "compiler::prims::prims vs keyword_to_atom(2)")); }
     }
     None
+}
+
+// ---- C07: SExp equality holds exactly when the CLVM encodings are identical (all pairs over a set of leaf forms incl. non-minimal encodings)
+fn chk_sexp_equality() -> Option<Value> {
+    use chialisp::compiler::clvm::convert_to_clvm_rs;
+    use chialisp::compiler::sexp::SExp;
+    use chialisp::compiler::srcloc::Srcloc;
+    use std::rc::Rc;
+    let res = catch_unwind(|| {
+        let loc = Srcloc::start("*eq*");
+        let mut leaves: Vec<SExp> = vec![SExp::Nil(loc.clone())];
+        for n in [-129i64, -128, -2, -1, 0, 1, 2, 127, 128, 255, 256, 258] { leaves.push(SExp::Integer(loc.clone(), num_bigint::BigInt::from(n))); }
+        for b in [vec![], vec![0u8], vec![1], vec![0, 1], vec![0xff], vec![0xff, 0xff], vec![0xff, 0x80], vec![0x80], vec![0, 0x80], vec![1, 2], vec![0, 1, 2], vec![b'a']] {
+            leaves.push(SExp::Atom(loc.clone(), b.clone())); leaves.push(SExp::QuotedString(loc.clone(), b'"', b.clone()));
+        }
+        let mut vals: Vec<Rc<SExp>> = leaves.iter().map(|l| Rc::new(l.clone())).collect();
+        for l in leaves.iter().take(8) { vals.push(Rc::new(SExp::Cons(loc.clone(), Rc::new(l.clone()), Rc::new(SExp::Nil(loc.clone()))))); vals.push(Rc::new(SExp::Cons(loc.clone(), Rc::new(SExp::Atom(loc.clone(), vec![9])), Rc::new(l.clone())))); }
+        let mut a = clvmr::Allocator::new();
+        let enc: Vec<Option<Vec<u8>>> = vals.iter().map(|v| convert_to_clvm_rs(&mut a, v.clone()).ok().and_then(|n| clvmr::serde::node_to_bytes(&a, n).ok())).collect();
+        for i in 0..vals.len() { for j in 0..vals.len() {
+            let eq = *vals[i] == *vals[j];
+            let same = enc[i].is_some() && enc[i] == enc[j];
+            if eq != same { return Some((format!("{:?}", vals[i]), format!("{:?}", vals[j]), eq, enc[i].clone(), enc[j].clone())); }
+        } }
+        None
+    });
+    match res {
+        Ok(Some((x, y, eq, ex, ey))) => Some(hit(json!({"left": x, "right": y}), format!("== holds exactly when the encodings {:?} and {:?} are identical", ex, ey), format!("== returned {}", eq), "SExp == SExp vs convert_to_clvm_rs + node_to_bytes, all pairs of the enumerated values")),
+        Err(_) => Some(hit(json!({}), "no panic".into(), "panic".into(), "SExp equality panicked")),
+        _ => None,
+    }
 }
 
 // ---- C05: same source, same options => same bytes and the same user-visible symbols, whatever was
@@ -1200,7 +1261,7 @@ pub fn search(name: &str, seed: u64) -> Value {
             chk_determinism().unwrap_or_else(|| nf(&format!("{} programs (cl21/cl22/cl23; functions, inlines, lets, assign, lambdas with captures, CSE candidates) compile to identical bytes and user-visible symbols when compiled again after other (also failed) compilations and on a second thread", determinism_programs().len())))
         }
         "tables" | "prims_agree_with_kw" | "builders_select_same_rows_and_are_monotone" | "opcodes_pairwise_distinct" | "names_pairwise_distinct" | "selectors_agree" | "kw_rows_known_to_modern_compiler" | "stepper_constants_agree" => {
-            chk_tables().unwrap_or_else(|| nf("run-time tables are mutually inverse per version, monotone, and agree with prims()"))
+            chk_tables().unwrap_or_else(|| nf("run-time tables are mutually inverse per version, monotone, and agree with prims(); every operator of every version's table and every modern primitive is implemented by the evaluator selected for it (one-operator program per name, exhaustive)"))
         }
         "reader_locs" => {
             let toks: Vec<&[u8]> = vec![b"(", b")", b" ", b"\t", b"\n", b"ab", b"x", b"12", b"0x1f", b"\"q s\"", b"'p'", b".", b";c\n"];
@@ -1283,7 +1344,7 @@ pub fn search(name: &str, seed: u64) -> Value {
             for (d, e) in open_cases.iter() { if let Some(v) = chk_repl_open(d, e, &open_args) { return v; } }
             nf("16 closed REPL sessions and 10 open ones (residual compiled and compared on 3 argument trees, incl. helpers spelled like the operators f / r / c) (arithmetic, recursion, inline, assign destructuring of 3/4/nested patterns, rest args, @ capture, constants, let/let*) reduce to the constant the compiled cl21 program returns")
         }
-        "classic_meaning" => {
+        "classic_meaning" | "symbol_table_for_tree" => {
             // programs without a dialect sigil go through the classic (CLVM-hosted) compiler
             let cases: Vec<(&str, &str, &str)> = vec![
                 ("(mod (X) (defun ff1 (A) (* A 2)) (ff1 (+ X 1)))", "(3)", "8"),
@@ -1297,6 +1358,9 @@ pub fn search(name: &str, seed: u64) -> Value {
                 ("(mod (X) (defun-inline sel3 (((A B) C)) (list A B C)) (sel3 (list (list (+ X 1) (+ X 2)) (+ X 3))))", "(10)", "(11 12 13)"),
                 ("(mod (X) (defun-inline selp (((A . B) . C)) (list A B C)) (selp (c (c (+ X 1) (+ X 2)) (+ X 3))))", "(10)", "(11 12 13)"),
                 ("(mod (X) (defun-inline deep ((A (B (C D)) E)) (list A B C D E)) (deep (list 1 (list 2 (list 3 X)) 5)))", "(4)", "(1 2 3 4 5)"),
+                // a capture whose name is spelled again inside its own pattern means the whole captured value
+                ("(mod (X Y) (defun F (@ A (A B)) (c B A)) (F X Y))", "(100 (200 300))", "((200 300) 100 (200 300))"),
+                ("(mod (P (@ Q (R Q))) (list P Q R))", "(1 (2 3))", "(1 (2 3) 2)"),
             ];
             for (b, at, ex) in cases.iter() {
                 if let Some(mut v) = chk_meaning(b, None, at, ex) { v["input"] = json!({"program": b, "dialect": "classic", "args": at}); return v; }
@@ -1304,14 +1368,14 @@ pub fn search(name: &str, seed: u64) -> Value {
                 let r = catch_unwind(move || { let got = compile_and_run(&b2, true, &a2); let mut a = clvmr::Allocator::new(); let want = chialisp::classic::clvm_tools::binutils::assemble(&mut a, &e2).ok().and_then(|n| clvmr::serde::node_to_bytes(&a, n).ok()); (got, want) });
                 match r { Ok((Ok(g), w)) if g == w => {}, Ok((g, w)) => return hit(json!({"program": b, "dialect": "classic -O", "args": at}), format!("{} ({:?})", ex, w), format!("{:?}", g), "classic compile with optimisation + clvmr run"), Err(_) => return hit(json!({"program": b}), "no panic".into(), "panic".into(), "classic compile panicked") }
             }
-            nf("11 programs (incl. nested destructuring in inline parameters) compiled by the classic compiler (plain and optimised) return the hand-computed values (which the cl21 build also returns, see source_meaning)")
+            nf("13 programs (incl. nested destructuring in inline parameters, a capture name repeated inside its pattern) compiled by the classic compiler (plain and optimised) return the hand-computed values (which the cl21 build also returns, see source_meaning)")
         }
         "source_meaning" | "create_let_env_expression" | "cons_bodyform" | "create_name_lookup_" | "finalize_env_" => {
             for (b, at, ex) in meaning_cases() { for d in [Some("*standard-cl-21*"), Some("*standard-cl-23*")] {
                 if skipped(&json!({"program": b, "dialect": d, "args": at})) { continue; }
                 if let Some(mut v) = chk_meaning(b, d, at, ex) { v["input"] = json!({"program": b, "dialect": d, "args": at}); return v; }
             } }
-            nf("32 programs (functions, inlines, let inside inline functions with @ captures, parameters drawn from a &rest tail with and without a rest parameter, quoted data containing (1), quoted atoms spelled like parameters, nested destructuring in inline parameters, nested mod in main / in defun, destructuring, @ capture, rest arguments, let/let*, recursion, macro, constants) x cl21/cl23 return the hand-computed values")
+            nf("36 programs (functions, inlines, binders inside &rest tails that re-use visible names, let inside inline functions with @ captures, parameters drawn from a &rest tail with and without a rest parameter, quoted data containing (1), quoted atoms spelled like parameters, nested destructuring in inline parameters, nested mod in main / in defun, destructuring, @ capture, rest arguments, let/let*, recursion, macro, constants) x cl21/cl23 return the hand-computed values")
         }
         "opt_levels" | "null_optimization" | "null_optimization_of_code" | "post_codegen_function_optimize" | "post_codegen_output_optimize" | "atomize" => {
             let progs: Vec<(&str, Vec<&str>)> = vec![
@@ -1487,6 +1551,7 @@ pub fn search(name: &str, seed: u64) -> Value {
         }
         "convert_from_clvm_rs" | "convert_to_clvm_rs" | "convert" | "sha256tree" | "sha256tree_from_atom" | "number_from_u8" | "u8_from_number" => {
             for d in convert_inputs() { if let Some(v) = chk_convert(&d) { return v; } }
+            if let Some(v) = chk_sexp_equality() { return v; }
             nf("conversion round trip and the three tree hashes agree on the enumerated values in both integer modes")
         }
         "path_optimizer" | "sub_args" | "path_from_args" | "optimize_sexp" | "path_number_from_u8" | "new" | "add" | "first" | "rest" | "as_path" | "seems_constant" => {
